@@ -62,6 +62,8 @@ def gen_cases(tier, seed):
         yield "both_networks", {"seed": rand_bytes(rng, 32).hex(), "path": [rng.choice(IDX[:5]) for _ in range(rng.randrange(1, 4))], "first_testnet": i % 2 == 0}
     # (wallet.hd.derive_child is not driven: it raises TypeError for every input - str keys reach a bytes-only Base58 decoder,
     #  bytes keys fail its str prefix test - so it derives nothing; observed, not claimed, see DESIGN.md section 7)
+    for i in range(2 if q else 20):
+        yield "arg_forms", {"salt": rng.getrandbits(40)}
     for i in range(6 if q else 60):
         yield "hd_root", {"salt": rng.getrandbits(40), "pp": ["", "TREZOR", "é"][i % 3]}
     for i in range(24 if q else 360):
@@ -81,7 +83,7 @@ def gen_cases(tier, seed):
 
 def required(tier):
     return {"path.decided": 100, "path.composition": 60, "path.public_tail": 40, "path.hardened_from_pub_refused": 20,
-            "ckd.commute": 30, "siblings.children": 60, "networks.derivations": 25, "hd_root.decided": 5, "cli.hd": 12, "ser.class.zero_fingerprint_at_depth>0": 3, "siblings.class.parent_key_leading_zero": 4, "ckd.hardened_refused": 8, "ser.roundtrip": 50, "ser.form.int": 10, "reject.decided": 400,
+            "ckd.commute": 30, "siblings.children": 60, "networks.derivations": 25, "hd_root.decided": 5, "cli.hd": 12, "ser.class.zero_fingerprint_at_depth>0": 3, "siblings.class.parent_key_leading_zero": 4, "ckd.hardened_refused": 8, "ser.roundtrip": 50, "ser.class.key_leading_or_trailing_zero_bytes": 15, "ser.form.int": 10, "reject.decided": 400,
             "vectors.invalid": 16}
 
 
@@ -113,6 +115,16 @@ def run_case(kind, params, ctx):
     import bits.bips.bip32 as b32
     import bits.wallet.hd as hd
     _selfcheck(ctx)
+    if kind == "arg_forms":
+        from .common import arg_forms
+        rng = rng_for("C09af", params["salt"])
+        ref = rb32.derive(rand_bytes(rng, 32), [1, HARD + 2], False)
+        for xk in (ref[-1][0], ref[-1][1]):
+            arg_forms(ctx, "deserialized_extended_key", b32.deserialized_extended_key, [xk])
+            arg_forms(ctx, "deserialized_extended_key(dict)", lambda b: b32.deserialized_extended_key(b, return_dict=True), [xk])
+            arg_forms(ctx, "derive_from_path", lambda b: hd.derive_from_path("M/1" if b[:4] in (b"xpub", b"tpub") else "m/1", b), [xk])
+        ctx.nontrivial()
+        return
     if kind == "vectors":
         try:
             k, c = b32.to_master_key(bytes.fromhex(TV1_SEED))
@@ -422,8 +434,13 @@ def run_case(kind, params, ctx):
         depth = rng.choice([0, 1, 2, 5, 255])
         fp = b"\x00" * 4 if depth == 0 else rng.choice([rand_bytes(rng, 4), rand_bytes(rng, 4), b"\x00" * 4, b"\xff" * 4, b"\x00\x00\x00\x01"])
         child = 0 if depth == 0 else rng.choice(IDX + [rng.getrandbits(32)])
-        c = rng.choice([rand_bytes(rng, 32), rand_bytes(rng, 32), b"\x00" * 32, b"\xff" * 32])
+        c = rng.choice([rand_bytes(rng, 32), rand_bytes(rng, 32), b"\x00" * 32, b"\xff" * 32, b"\x00" * 3 + rand_bytes(rng, 29), rand_bytes(rng, 30) + b"\x00\x00"])
         k = rng.randrange(1, secp.N)
+        if rng.random() < 0.5:
+            # keys whose 32-byte encoding starts / ends with zero bytes (the serialised private key is 00 || key: stripping is not slicing)
+            from .common import keys_boundary
+            k = rng.choice(keys_boundary() + [1, 255, 256, 1 << 200, (1 << 248) - 1, rng.getrandbits(240), rng.getrandbits(200) << 16])
+            ctx.count("ser.class.key_leading_or_trailing_zero_bytes")
         key = k if params["priv"] else secp.pub(k)
         forms = params["forms"]
         if depth and fp == b"\x00" * 4:
